@@ -229,7 +229,7 @@ fn worker(args: &WorkerArgs, progs: &[Prog]) -> ShardStats {
         // member relations, whose queries read the `all` copies), in C06 (both families are
         // surjective) and in C20 (transcripts need no reference); the other monitors do not know
         // the own / all split
-        .filter(|i| progs[*i].model.is_none() || matches!(prop, "C05" | "C06" | "C20"))
+        .filter(|i| progs[*i].model.is_none() || matches!(prop, "C05" | "C06" | "C19" | "C20"))
         .filter(|i| match prop {
             "C06" => progs[*i].surjective,
             "C15" => progs[*i].program.sorts.iter().any(|s| matches!(s.kind, lang::SortKind::Enum(_))),
@@ -353,7 +353,7 @@ fn worker(args: &WorkerArgs, progs: &[Prog]) -> ShardStats {
                 let seed = derive_seed(args.seed, 2020, simcore::fnv_str(&prog.name).wrapping_add(j));
                 let mut rng = Rng::new(seed);
                 let knobs = HistKnobs::draw(&mut rng);
-                let ops = gen_history(prog, &mut rng, &knobs, true);
+                let ops = if prog.model.is_some() { c17::gen_history(prog, &mut rng) } else { gen_history(prog, &mut rng, &knobs, true) };
                 let r = catch_unwind(AssertUnwindSafe(|| hist_props::transcript(prog, &ops)));
                 let h = match r {
                     Ok((h, info)) => {
